@@ -951,6 +951,18 @@ def plan_C20(ctx):
             ctx.judge("Judge_IP4", drift_out)
         if c in ("b4", "bz", "gen"): audit_sample(ctx, r["out"], 997 if ctx.quick else 199, module="Judge_IP4")
         shutil.rmtree(r["dir"], ignore_errors=True)
+    # IPv6 (used by the call-id signature; beyond C20, which speaks about IPv4): the transcription of IP6Prefix / ContainsIP6 against
+    # the code (drift), and -- as an observation, never a verdict -- the texts whose reported span is not an RFC 4291 address
+    # (IPAddr!Prefix6Sound / Contains6Sound, evaluated on the model results, which equal the real ones when the drift is 0)
+    for c in (["v6a", "v6b"] if ctx.quick else ["v6a", "v6b", "v6c"]):
+        ctx.tlc("MC_IP4", "MC_IP6_%s.cfg" % c, workers=8, min_records=10000, timeout=3000)
+    r6 = vlib.run_tlc("MC_IP4", ("ip6_sound.cfg", open(os.path.join(V, "spec", "MC_IP6_v6a.cfg")).read().replace("INVARIANTS EmitIP6Prefix EmitContainsIP6", "INVARIANTS Rep6")), workers=8, timeout=900)
+    if r6["ok"]:
+        v6 = re.findall(r'<<"VIOL6", "(\w+)", (<<[^>]*>>)', open(r6["out"], errors="replace").read())
+        o = ctx.extra.setdefault("observations_outside_properties", [])
+        o.append(dict(what="IPv6: texts (of %d over '1 f : [ ] x', <= 6 bytes) for which IP6Prefix / ContainsIP6 report a span that is not an RFC 4291 text address: %d, e.g. %s"
+                      % (r6["distinct"], len(v6), ", ".join("%s %r" % (k, bytes(int(x) for x in re.findall(r"\d+", t))) for k, t in v6[:8]))))
+        shutil.rmtree(r6["dir"], ignore_errors=True)
     # "the call-id signature classifies the IP position from the search result": StrSig.tla (CallIDSig over ContainsIP4/6),
     # IPPosDecl on the model (part of CallIDDeclInv); drifted + sampled REAL results judged by TLC with IPPosDecl
     ipj = lambda c, f: c.judge("Judge_Sig", f, what="IP position flag of the call-id signature does not match any dotted quad of the text (StrSig.tla: IPPosDecl)")
